@@ -183,4 +183,37 @@ for isa in ("x86", "aarch64"):
             if v != ref:
                 diff = [(a, b) for a, b in zip(ref[0], v[0]) if a != b][:2]
                 R.fail("C11/select/noise", f"C11:noise:{isa}", f"inserting non-instruction lines {[x for x in noisy if x not in body]} changed the numbers: {diff} / {ref[1]} vs {v[1]}", dict(desc, noisy=noisy))
+
+# ------------------------------------------------------------------ (3b) forms with ALTERNATIVE port assignments (dict-valued port_pressure in the model)
+# the balancing step picks the best alternative for the whole kernel: a non-instruction line anywhere (in particular in front of the
+# first instruction, where the whole-file / --lines / marker variants put the loop label) must not change which one is picked
+ALT_BODY = ["smlal v0.2d, v1.2s, v2.2s", "smlal2 v7.4s, v1.8h, v2.8h", "dup d3, v4.d[0]", "dup d5, v4.d[1]", "dup d6, v4.d[1]", "fadd v1.2d, v0.2d, v1.2d", "add x2, x2, #16"]
+for vi in range(6 if A.tier != "thorough" else 40):
+    body = [rnd.choice(ALT_BODY[:2])] + [rnd.choice(ALT_BODY) for _ in range(rnd.randint(1, 5))]
+    rnd.shuffle(body)
+    desc = dict(isa="aarch64", arch="a64fx", body=body)
+    R.case(("alt", tuple(body)), sample=desc)
+    try:
+        ref = numbers(run_cli("\n".join(body) + "\n", ["--arch", "a64fx"]))
+    except Exception as e:
+        R.fail("C11/select/variant-crash", "C11:variant-crash:aarch64", repr(e), desc)
+        continue
+    start, end = MARK["aarch64"]["comment"]
+    variants = [("noise line in front of the first instruction", [rnd.choice(NOISE["aarch64"][:3])] + body, []),
+                ("noise line after the last instruction", body + [rnd.choice(NOISE["aarch64"][:3])], []),
+                ("marked, loop label first", ["mov x9, x9"] + start + [".L5:"] + body + end + ["mov x9, x9"], [])]
+    noisy = []
+    for l in body:
+        noisy += [rnd.choice(NOISE["aarch64"]) for _ in range(rnd.randint(0, 2))] + [l]
+    variants.append(("random noise lines", noisy, []))
+    for nm, code, extra in variants:
+        R.case(("alt-noise", tuple(code)), sample=dict(desc, variant=code))
+        try:
+            v = numbers(run_cli("\n".join(code) + "\n", ["--arch", "a64fx"] + extra))
+        except Exception as e:
+            R.fail("C11/select/noise-crash", "C11:noise-crash:aarch64", repr(e), dict(desc, variant=code))
+            continue
+        if v != ref:
+            diff = [(a, b) for a, b in zip(ref[0], v[0]) if a != b][:2]
+            R.fail("C11/select/noise", "C11:noise:alternatives", f"{nm} changed the numbers of a kernel with alternative port assignments: {diff} / {ref[1]} vs {v[1]}", dict(desc, variant=code))
 R.done()
